@@ -59,6 +59,36 @@ def media_spec():
     return {"swagger": "2.0", "info": {"title": "media", "version": "1"}, "consumes": menu[:8], "produces": menu[8:16], "paths": paths}
 
 
+def ties_spec():
+    """properties that share an x-order value (ties), next to distinct and absent x-order"""
+    props = lambda ks: {k: dict({"type": "string"}, **({"x-order": o} if o is not None else {})) for k, o in ks}
+    defs = {"tied": {"type": "object", "properties": props([("zeta", 1), ("alpha", 1), ("mid", 1), ("beta", 0), ("omega", 2), ("gamma", 2), ("free", None), ("bound", None)])},
+            "allTied": {"type": "object", "properties": props([(chr(ord("a") + i) * 2, 5) for i in range(9)])}}
+    return {"swagger": "2.0", "info": {"title": "ties", "version": "1"}, "consumes": ["application/json"], "produces": ["application/json"],
+            "paths": {"/t": {"get": {"operationId": "getTied", "responses": {"200": {"description": "ok", "schema": {"$ref": "#/definitions/tied"}},
+                                                                             "default": {"description": "err", "schema": {"$ref": "#/definitions/allTied"}}}}}},
+            "definitions": defs}
+
+
+def unreferenced_pair():
+    """two documents whose differences sit in definitions no endpoint uses, one of which refers to the
+    other, plus a parameter enum that loses and gains several values"""
+    def doc(v2):
+        item = {"type": "object", "required": ["code"] + (["weight"] if v2 else []),
+                "properties": {"code": {"type": "string", "maxLength": 4 if v2 else 8}, "weight": {"type": "number"}}}
+        if v2:
+            item["properties"]["extra"] = {"type": "string"}
+        defs = {"Item": item, "Holder": {"type": "object", "properties": {"item": {"$ref": "#/definitions/Item"}, "items": {"type": "array", "items": {"$ref": "#/definitions/Item"}}}},
+                "Outer": {"type": "object", "properties": {"holder": {"$ref": "#/definitions/Holder"}}}}
+        for i in range(4):
+            defs["Filler%d" % i] = {"type": "object", "properties": {"f": {"type": "integer", "maximum": 5 if v2 else 9}}}
+        enum = ["a", "b", "c", "d", "e"] if not v2 else ["a", "x", "y", "z"]
+        return {"swagger": "2.0", "info": {"title": "unref", "version": "1"}, "consumes": ["application/json"], "produces": ["application/json"],
+                "paths": {"/p": {"get": {"operationId": "getP", "parameters": [{"name": "kind", "in": "query", "type": "string", "enum": enum}],
+                                         "responses": {"200": {"description": "ok"}}}}}, "definitions": defs}
+    return doc(False), doc(True)
+
+
 def check(run, replay=None):
     quick = run.tier == "quick"
     mc = run.tlc("Determinism", "MCDeterminism", workers=4, timeout=600)
@@ -75,11 +105,13 @@ def check(run, replay=None):
     todo = os.path.join(fx, "codegen", "todolist.allparams.yml")
     gens = []
     media = os.path.join(work, "media.json"); json.dump(media_spec(), open(media, "w"))
-    for name, spec in (("wide", wide), ("todolist", todo), ("media", media)):
+    ties = os.path.join(work, "ties.json"); json.dump(ties_spec(), open(ties, "w"))
+    for name, spec in (("wide", wide), ("todolist", todo), ("media", media), ("ties", ties)):
         for cmd in ("server", "client", "cli"):
             gens.append(dict(id="generate %s %s" % (cmd, name), args=["generate", cmd, "-f", spec, "-t", "{T}", "--name", "verif"], output="{T}", lib=cmd, spec=spec))
         gens.append(dict(id="generate model %s" % name, args=["generate", "model", "-f", spec, "-t", "{T}"], output="{T}", lib="model", spec=spec))
         gens.append(dict(id="generate markdown %s" % name, args=["generate", "markdown", "-f", spec, "-t", "{T}", "--output", "doc.md"], output="{T}", lib="markdown", spec=spec))
+    gens.append(dict(id="generate server ties keep-spec-order", args=["generate", "server", "-f", ties, "-t", "{T}", "--name", "verif", "--keep-spec-order"], output="{T}"))
     others = [
         dict(id="flatten wide", args=["flatten", wide, "-o", "{T}/out.json"], output="{T}/out.json"),
         dict(id="flatten wide yaml", args=["flatten", wide, "-o", "{T}/out.yml", "--format", "yaml"], output="{T}/out.yml"),
@@ -88,6 +120,12 @@ def check(run, replay=None):
         dict(id="generate spec petstore", args=["generate", "spec", "-w", os.path.join(fx, "goparsing", "petstore"), "-o", "{T}/spec.json"], output="{T}/spec.json"),
         dict(id="generate spec classification", args=["generate", "spec", "-w", os.path.join(fx, "goparsing", "classification"), "-m", "-o", "{T}/spec.json"], output="{T}/spec.json"),
     ]
+    u1, u2 = unreferenced_pair()
+    ua, ub = os.path.join(work, "unref.v1.json"), os.path.join(work, "unref.v2.json")
+    json.dump(u1, open(ua, "w")); json.dump(u2, open(ub, "w"))
+    others.append(dict(id="diff unreferenced txt", args=["diff", ua, ub, "-d", "{T}/report.txt"], output="{T}/report.txt", errOK=True))
+    others.append(dict(id="diff unreferenced json", args=["diff", "-f", "json", ua, ub, "-d", "{T}/report.json"], output="{T}/report.json", errOK=True))
+    others.append(dict(id="diff unreferenced reverse", args=["diff", ub, ua, "-d", "{T}/report.txt"], output="{T}/report.txt", errOK=True))
     for pair in ("kitchensink", "enum", "uber", "param"):
         a, b = os.path.join(fx, "diff", pair + ".v1.json"), os.path.join(fx, "diff", pair + ".v2.json")
         others.append(dict(id="diff %s txt" % pair, args=["diff", a, b, "-d", "{T}/report.txt"], output="{T}/report.txt", errOK=True))
@@ -95,7 +133,7 @@ def check(run, replay=None):
     nseq = 8 if quick else 40
     conc = 4 if quick else 8
     if quick:
-        gens = [g for g in gens if "wide" in g["id"] or "server" in g["id"] or g["id"] == "generate client media"]
+        gens = [g for g in gens if "wide" in g["id"] or "server" in g["id"] or g["id"] in ("generate client media", "generate model ties", "generate markdown ties", "generate server ties keep-spec-order")]
         others = [o for o in others if "classification" not in o["id"]]
     import concurrent.futures
     # the sequential repetitions of different jobs are independent: one driver process per group of jobs
@@ -127,7 +165,7 @@ def check(run, replay=None):
             events.append(dict(ev="Run", job=j["id"], mode="proc", rep=k, target="cli-t0", exit=0 if (g.returncode == 0 or j.get("errOK")) else 1,
                                digest=d["digest"], files=d["files"]))
     # concurrent generations under the race detector
-    racejobs = [g for g in gens if g["id"] in ("generate server wide", "generate client wide", "generate markdown wide")] if quick else gens
+    racejobs = [g for g in gens if g["id"] in ("generate server wide", "generate client wide", "generate markdown wide")] if quick else [g for g in gens if "lib" in g]
     jg = run.path("jobs-gen.ndjson"); write_ndjson(jg, racejobs)
     t2 = run.path("trace-conc.ndjson")
     env = dict(GOENV, GORACE="halt_on_error=0 exitcode=0")
